@@ -1,0 +1,27 @@
+//go:build verif
+
+package expressions
+
+// Hooks for the verification harness (/verif, property C20): direct access to
+// the two sub-parsers that BlockT.ParseBlock dispatches to. Compiled only with
+// -tags verif; nothing else in the package refers to them.
+
+// VerifPreParser runs preParser on expression exactly as ParseBlock does and
+// returns the position it stopped at (relative to expression) or its error.
+func VerifPreParser(expression []rune, offset int) (int, error) {
+	tree := NewParser(nil, expression, offset)
+	return tree.preParser()
+}
+
+// VerifKnownCommand runs parseStatementWithKnownCommand at charPos of block
+// (the `>>` and `~>` cases of ParseBlock) and returns the statement parser's
+// final position relative to charPos.
+func VerifKnownCommand(block []rune, charPos int, command ...rune) (int, error) {
+	blk := NewBlock(block)
+	blk.charPos = charPos
+	tree, err := blk.parseStatementWithKnownCommand(command...)
+	if err != nil {
+		return 0, err
+	}
+	return tree.charPos, nil
+}
